@@ -64,6 +64,8 @@ INVALID_NEW = {
     "graph_1d": (lambda g, d: (g.ravel().copy(), d), ("ValueError", "TypeError")),
     "graph_3d": (lambda g, d: (g.reshape((1,) + g.shape).copy(), d), ("ValueError", "TypeError")),
     "graph_cyclic": (None, ("ValueError",)),
+    "graph_cyclic_negative_weights": (None, ("ValueError",)),
+    "graph_cyclic_cancelling_weights": (None, ("ValueError",)),
     "data_tuple": (lambda g, d: (g, tuple(d)), ("TypeError",)),
     "data_ndarray": (lambda g, d: (g, d[0]), ("TypeError",)),
     "data_elem_list": (lambda g, d: (g, [d[0].tolist()] + d[1:]), ("TypeError",)),
@@ -86,9 +88,17 @@ INVALID_N = {
 }
 
 
-def cyclic_graph(g):
+def cyclic_graph(g, weights=(1, 1, 1)):
     p = len(g)
-    c = np.zeros_like(g)
+    c = np.zeros(g.shape, dtype=(g.dtype if weights == (1, 1, 1) else float))
+    if weights != (1, 1, 1):
+        if p >= 3:
+            c[0, 1], c[1, 2], c[2, 0] = weights
+        elif p == 2:
+            c[0, 1], c[1, 0] = weights[0], -abs(weights[0])
+        else:
+            c[0, 0] = -1.0
+        return c
     if p >= 3:
         c[0, 1] = c[1, 2] = c[2, 0] = 1
     elif p == 2:
@@ -108,6 +118,10 @@ def h_net_new(w, st, rec):
     if kind:
         if kind == "graph_cyclic":
             graph = cyclic_graph(graph)
+        elif kind == "graph_cyclic_negative_weights":
+            graph = cyclic_graph(graph, (-1.0, -0.5, -2.0))
+        elif kind == "graph_cyclic_cancelling_weights":
+            graph = cyclic_graph(graph, (1.0, 1.0, -2.0))
         else:
             graph, data = INVALID_NEW[kind][0](graph, data)
     pf = rec.get("peer_fault")
